@@ -14,7 +14,7 @@ Open Scope N_scope.
 Inductive pyval :=
 | PNone
 | PStr (s : str)
-| PNum (n : Z) (d : N)
+| PNum (n : Z) (d : positive)
 | PDate (ord : Z)
 | PDateTime (ord : Z) (us : N).
 
@@ -22,7 +22,7 @@ Inductive pyval :=
 Inductive cell :=
 | Empty                       (* no cell, or a formatted blank cell *)
 | Str (s : str)               (* shared or inline string *)
-| Num (n : Z) (d : N)         (* number n/d *)
+| Num (n : Z) (d : positive)  (* number n/d *)
 | Formula (s : str)           (* a formula cell: XlsxWriter turned the string into a formula *)
 | Opaque.                     (* hyperlink cell whose text XlsxWriter derives from the url *)
 
@@ -68,12 +68,12 @@ Definition xl_write_str (s : str) : cell :=
 Definition ord_1899_12_31 : Z := 693595.
 Definition ord_1904_01_01 : Z := 695056.
 Definition ord_1900_01_01 : Z := 693596.
-Definition us_per_day : N := 86400000000.
+Definition us_per_day : positive := 86400000000%positive.
 
 (** utility._datetime_to_excel_datetime with date_1904 False (python-pptx never passes
     the date_1904 workbook option): numerator over us_per_day. *)
 Definition xl_datetime_num (is_datetime : bool) (ord : Z) (us : N) : Z :=
-  let d := Z.of_N us_per_day in
+  let d := Zpos us_per_day in
   let t := ((ord - ord_1899_12_31) * d + Z.of_N us)%Z in
   let t := if is_datetime && (ord =? ord_1900_01_01)%Z then (t - d)%Z else t in
   if (59 * d <? t)%Z then (t + d)%Z else t.
@@ -120,7 +120,7 @@ Fixpoint get (sh : sheet) (r c : N) : cell :=
 (** ------------------------------------------------------- chart data (data.py) *)
 
 (** A series value: None or a number. *)
-Definition val := option (Z * N).
+Definition val := option (Z * positive).
 Definition pv_of_val (v : val) : pyval :=
   match v with None => PNone | Some (n, d) => PNum n d end.
 
@@ -291,7 +291,7 @@ Definition cat_sheet (d : catdata) : res sheet :=
 (** The text of a c:v element, up to the reading the property makes of it. *)
 Inductive cval :=
 | CStr (s : str)            (* text *)
-| CNum (n : Z) (d : N)      (* decimal text of the number n/d *)
+| CNum (n : Z) (d : positive)  (* decimal text of the number n/d *)
 | COpaque.                  (* str() of a date object: not modelled *)
 
 Record cache := mk_cache { pt_count : N; pts : list (N * cval) }.
@@ -449,7 +449,7 @@ Definition cell_agrees (v : option cval) (c : cell) : bool :=
   | None, Empty => true
   | Some (CStr []), Empty => true
   | Some (CStr s), Str s' => str_eqb s s'
-  | Some (CNum n d), Num n' d' => (n * Z.of_N d' =? n' * Z.of_N d)%Z && negb (d =? 0) && negb (d' =? 0)
+  | Some (CNum n d), Num n' d' => (n * Zpos d' =? n' * Zpos d)%Z
   | _, _ => false
   end.
 
@@ -491,16 +491,30 @@ Fixpoint agree_levels (sh : sheet) (r : rng) (count : N) (i : N) (lvls : list (l
 Definition agree_cat (sh : sheet) (r : rng) (cc : cat_cache) : bool :=
   (r_c1 r + len_N (cc_levels cc) =? r_c2 r + 1) && agree_levels sh r (cc_count cc) 0 (cc_levels cc).
 
+(** Text of a one-cell reference given as a structured reference. *)
+Definition render_cell_rng (r : rng) : str := render_cell (column_letters (r_c1 r)) (r_r1 r).
+
+(** One c:ser: the three caches against the cells, and the c:f texts are the renderings
+    of the structured references. *)
 Definition agree_cat_ser (sh : sheet) (e : cat_ser) : bool :=
   agree_name sh (cs_name_rng e) (cs_name e)
   && agree_cat sh (cs_cat_rng e) (cs_cat e)
-  && agree_ref sh (cs_val_rng e) (cs_val e).
+  && agree_ref sh (cs_val_rng e) (cs_val e)
+  && str_eqb (cs_name_ref e) (render_cell_rng (cs_name_rng e))
+  && str_eqb (cs_cat_ref e) (render_rng (cs_cat_rng e))
+  && str_eqb (cs_val_ref e) (render_rng (cs_val_rng e)).
 
 Definition agree_xy_ser (sh : sheet) (e : xy_ser) : bool :=
   agree_name sh (xs_name_rng e) (xs_name e)
   && agree_ref sh (xs_x_rng e) (xs_x e)
   && agree_ref sh (xs_y_rng e) (xs_y e)
-  && match xs_size e with Some (r, _, ca) => agree_ref sh r ca | None => true end.
+  && match xs_size e with
+     | Some (r, t, ca) => agree_ref sh r ca && str_eqb t (render_rng r)
+     | None => true
+     end
+  && str_eqb (xs_name_ref e) (render_cell_rng (xs_name_rng e))
+  && str_eqb (xs_x_ref e) (render_rng (xs_x_rng e))
+  && str_eqb (xs_y_ref e) (render_rng (xs_y_rng e)).
 
 (** ---------------------------------------- chart part: new chart and replace_data *)
 
